@@ -355,11 +355,11 @@ func c18BackendConc(cc c18Cell, env *Env) CellResult {
 // ---- failover part
 
 func c18Failover(cfg FCfg, env *Env) CellResult {
-	opt := vsched.Options{PreemptionBound: 2, EnvBound: 0}
+	opt := vsched.Options{PreemptionBound: 2, EnvBound: 0, HBCache: true}
 	if len(cfg.Threads) == 1 {
 		opt = vsched.Options{PreemptionBound: -1, EnvBound: 0, HBCache: true}
 	} else if env.Thorough() {
-		opt = vsched.Options{PreemptionBound: 3, EnvBound: 0, MaxExecs: 300000}
+		opt = vsched.Options{PreemptionBound: 3, EnvBound: 0, HBCache: true, MaxExecs: 300000}
 	}
 
 	front := frontNames[cfg.Front]
